@@ -54,8 +54,10 @@ class Interpreter:
         :param code: Michelson code
         """
         result = InterpreterResult(stdout=[])
-        stack_backup = deepcopy(self.stack)
-        context_backup = deepcopy(self.context)
+        # NOTE: one memo for both copies, so that big_maps of the saved stack refer to the saved context
+        backup_memo: dict = {}
+        context_backup = deepcopy(self.context, backup_memo)
+        stack_backup = deepcopy(self.stack, backup_memo)
 
         try:
             code_section = CodeSection.match(michelson_to_micheline(code))
